@@ -129,6 +129,7 @@ class Tr:
         self.cap_map = {}       # inside a lambda: decl id -> C expr of the capture cell
         self.labels = set()
         self.instances = []
+        self.brk = []           # stack of enclosing breakable constructs: ('loop',), ('switch',), ('cut', k)
         self.file = (node.get('loc') or {}).get('file')
         self._src = None
 
@@ -213,7 +214,18 @@ class Tr:
                 return self._addressable(s['inner'][1])
             # call returning a reference -> we return pointer, deref is addressable
             return self._returns_ref(s)
-        if k in ('CXXOperatorCallExpr', 'CXXMemberCallExpr'):
+        if k == 'CXXMemberCallExpr':
+            me = strip(s['inner'][0])
+            obj = me['inner'][0] if me.get('inner') else None
+            oq = qt(obj) if obj else ''
+            try:
+                ok = map_type(strip_cv(oq).rstrip('*').strip() if me.get('isArrow') else oq).klass
+            except Unsupported:
+                ok = None
+            if ok in ('agg', 'url', 'comp', 'base', 'usp'):
+                return self._returns_ref(s)     # extracted member function returning a reference: (*f(...)) is an lvalue
+            return self._returns_ref(s) and self._op_lvalue(s)
+        if k == 'CXXOperatorCallExpr':
             return self._returns_ref(s) and self._op_lvalue(s)
         return False
 
@@ -711,9 +723,20 @@ class Tr:
         self.emit('goto %s;' % self.label_names[n['targetLabelDeclId']], ind)
 
     def s_BreakStmt(self, n, ind):
-        self.emit('break;', ind)
+        if self.brk and self.brk[-1][0] == 'cut':
+            self.emit('goto __after_loop%d;' % self.brk[-1][1], ind)
+        else:
+            self.emit('break;', ind)
 
     def s_ContinueStmt(self, n, ind):
+        for b in reversed(self.brk):
+            if b[0] == 'switch':
+                continue
+            if b[0] == 'cut':
+                self.emit('goto __cont_loop%d;' % b[1], ind)
+            else:
+                self.emit('continue;', ind)
+            return
         self.emit('continue;', ind)
 
     def s_ReturnStmt(self, n, ind):
@@ -775,6 +798,34 @@ class Tr:
         self.loopn += 1
         return bool(sp)
 
+    def cutspec(self):
+        """a loop whose spec section is `@loop N` with lines `cut-havoc: a, b` and `cut-invariant: EXPR` is replaced by the
+        assume/assert encoding of the Hoare loop rule (base case, arbitrary iteration, invariant re-established)"""
+        sp = self.spec.get('loop %d' % self.loopn, [])
+        hv, inv = [], []
+        for l in sp:
+            l = l.strip()
+            if l.startswith('cut-havoc:'):
+                hv += [x.strip() for x in l[len('cut-havoc:'):].split(',') if x.strip()]
+            elif l.startswith('cut-invariant:'):
+                inv.append(l[len('cut-invariant:'):].strip())
+        if not inv and not hv:
+            return None
+        k = self.loopn
+        self.loopn += 1
+        return k, hv, ' && '.join('(%s)' % x for x in inv) or '1'
+
+    def cut_prologue(self, k, hv, inv, ind):
+        self.emit('/* loop %d cut: base case, then one arbitrary iteration from an arbitrary state satisfying the invariant */' % k, ind)
+        self.emit('__CPROVER_assert(%s, "loop %d of %s: invariant holds on entry");' % (inv, k, self.cname), ind)
+        for v in hv:
+            self.emit('__CPROVER_havoc_object(&%s);' % v, ind)
+        self.emit('__CPROVER_assume(%s);' % inv, ind)
+
+    def cut_epilogue(self, k, inv, ind):
+        self.emit('__CPROVER_assert(%s, "loop %d of %s: invariant preserved by an arbitrary iteration");' % (inv, k, self.cname), ind)
+        self.emit('__CPROVER_assume(0);', ind)
+
     def cond_no_hoist(self, c, what):
         self.pre.append([])
         try:
@@ -788,9 +839,27 @@ class Tr:
     def s_WhileStmt(self, n, ind):
         inner = n['inner']
         cond, body = inner[-2], inner[-1]
+        cut = self.cutspec()
+        if cut:
+            k, hv, inv = cut
+            self.emit('{', ind)
+            self.cut_prologue(k, hv, inv, ind + 1)
+            self.emit('if (%s)' % self.cond_no_hoist(cond, 'while'), ind + 1)
+            self.emit('{', ind + 1)
+            self.brk.append(('cut', k))
+            self.blk(body, ind + 2)
+            self.brk.pop()
+            self.emit('__cont_loop%d: ;' % k, ind + 2)
+            self.cut_epilogue(k, inv, ind + 2)
+            self.emit('}', ind + 1)
+            self.emit('__after_loop%d: ;' % k, ind + 1)
+            self.emit('}', ind)
+            return
         self.emit('while (%s)' % self.cond_no_hoist(cond, 'while'), ind)
         self.loopspec(ind)
+        self.brk.append(('loop',))
         self.blk(body, ind)
+        self.brk.pop()
 
     def s_DoStmt(self, n, ind):
         body, cond = n['inner'][0], n['inner'][1]
@@ -801,9 +870,27 @@ class Tr:
            (c.get('kind') == 'CXXBoolLiteralExpr' and not c.get('value')):
             self.blk(body, ind)
             return
+        cut = self.cutspec()
+        if cut:
+            k, hv, inv = cut
+            self.emit('{', ind)
+            self.cut_prologue(k, hv, inv, ind + 1)
+            self.brk.append(('cut', k))
+            self.blk(body, ind + 1)
+            self.brk.pop()
+            self.emit('__cont_loop%d: ;' % k, ind + 1)
+            self.emit('if (%s)' % self.cond_no_hoist(cond, 'do-while'), ind + 1)
+            self.emit('{', ind + 1)
+            self.cut_epilogue(k, inv, ind + 2)
+            self.emit('}', ind + 1)
+            self.emit('__after_loop%d: ;' % k, ind + 1)
+            self.emit('}', ind)
+            return
         self.emit('do', ind)
         self.loopspec(ind)
+        self.brk.append(('loop',))
         self.blk(body, ind)
+        self.brk.pop()
         self.emit('while (%s);' % self.cond_no_hoist(cond, 'do-while'), ind)
 
     def s_ForStmt(self, n, ind):
@@ -815,7 +902,9 @@ class Tr:
         i = self.cond_no_hoist(inc, 'for-increment') if inc and inc.get('kind') else ''
         self.emit('for (; %s; %s)' % (c, i), ind + 1)
         self.loopspec(ind + 1)
+        self.brk.append(('loop',))
         self.blk(body, ind + 1)
+        self.brk.pop()
         self.emit('}', ind)
 
     def s_CXXForRangeStmt(self, n, ind):
@@ -840,7 +929,9 @@ class Tr:
         inner = n['inner']
         cond, body = inner[-2], inner[-1]
         self.emit('switch (%s)' % self.with_pre(lambda: self.e(cond), ind), ind)
+        self.brk.append(('switch',))
         self.blk(body, ind)
+        self.brk.pop()
 
     def s_CaseStmt(self, n, ind):
         inner = n['inner']
